@@ -8,6 +8,11 @@ spec/AdapterTable.tla  decision tables of Call, SourceEl, Run, FillInto, FillCom
                        documented Usable/Precedence form), expected effect of a probe
 spec/Adapters.tla      machine Construct / Invoke over all capability records; AsDocumented, NamedNeverCasts, ...
 spec/Trace_FillSeq.tla, Trace_Adapters.tla   validation of recorded behaviour beyond the bounds
+
+Round 7: values carry the content of context.variable (typed Variables, Compose; results observed as yielded and at
+the end); elements with conflicting interfaces behind explicit adapters (Call(..), FillCompute(..)) whose binding by
+each driver is derived from AdapterTable.Exposed; adapter objects wrapped into a second adapter (Wrap / InvokeOuter).
+Variants rejected by TLC: FillSeq_forward.cfg, FillSeq_perflow.cfg, Adapters_forward.cfg.
 """
 import random
 
@@ -40,9 +45,14 @@ class Minimal(object):
             self.ctx.violation("%s:%s" % (sig, tail), detail)
 
 
+# wall-clock backstop for one scenario (a scenario is milliseconds of work): generous enough for a machine that is
+# shared with dozens of other checks (a 20 s limit fired on N = 0 chains under a load average of 270 on 16 cores)
+WATCHDOG = 300.0
+
+
 def outcome(fn, project):
     """Results of fn() projected, or "raised <class>", or "nonterminating" (generous wall-clock watchdog)."""
-    st, val = fl.timed(lambda: [project(v) for v in fn()], wall=20.0)
+    st, val = fl.timed(lambda: [project(v) for v in fn()], wall=WATCHDOG)
     if st == "ok":
         return val
     if st == "hang":
@@ -85,24 +95,29 @@ def driver_list(n_values, k, reduced=False):
 
 def replay_chain(ctx, mini, rec, k):
     ch, n_values, pairs = rec["ch"], rec["N"], rec["fk"]
-    exp = [flowlib.norm_spec_val(v) for v in rec["out"]]
+    exp = [fl.norm_spec_val3(v) for v in rec["out"]]
     size = (len(ch["pre"]) + len(ch["post"]), n_values, fl.chain_key(ch))
     tail = "%s:N=%d:%s" % (fl.chain_key(ch), n_values, pairs)
     drivers = driver_list(n_values, k, reduced=(pairs == "pairs"))
     if not ch["pre"] and not ch["post"]:
         drivers.append(("split", bufsizes(n_values)[k % (n_values + 3)], "bare", True, "alone"))
     for drv, bs, form, copy_buf, place in drivers:
+        snap = []         # every result as it was when it was yielded; out: the results after the driver has finished
         out = outcome(lambda: fl.drive_chain(ch, n_values, pairs, drv, bs, copy_buf=copy_buf, form=form, place=place,
-                                             variant=k), fl.project2)
+                                             variant=k, snap=snap), fl.project3)
         ctx.case(["chain", drv, bs, form, place, ch, n_values, pairs], nontrivial=n_values > 0)
+        name = drv if place == "alone" else "split-with-siblings"
+        where = tail + (":bufsize=" + bs_str(bs) if drv == "split" else "") + (":" + place if place != "alone" else "")
         if out != exp:
             kind = out if isinstance(out, str) else "results"
-            name = drv if place == "alone" else "split-with-siblings"
-            mini.fail("chain:%s:%s" % (name, kind.replace(" ", ":")), size,
-                      tail + (":bufsize=" + bs_str(bs) if drv == "split" else "") +
-                      (":" + place if place != "alone" else ""),
+            mini.fail("chain:%s:%s" % (name, kind.replace(" ", ":")), size, where,
                       {"chain": ch, "N": n_values, "flow": pairs, "driver": drv, "bufsize": bs, "form": form,
                        "place": place, "expected": exp, "observed": out})
+        elif snap != exp:
+            # a result that was right when it was yielded and changed afterwards (or the reverse): values share state
+            mini.fail("chain:%s:changed-after-yield" % name, size, where,
+                      {"chain": ch, "N": n_values, "flow": pairs, "driver": drv, "bufsize": bs, "form": form,
+                       "place": place, "expected": exp, "as_yielded": snap, "at_the_end": out})
     # chains that do not look at the data: the flow values are None, 0, "", {}, [], False, (0, {}), 0.0, ()
     if pairs == "bare" and ch["acc"] in ("store1", "last", "cnt") and \
             all(st["t"] in ("slice", "cfilter") for st in ch["pre"] + ch["post"]):
@@ -116,9 +131,9 @@ def replay_chain(ctx, mini, rec, k):
                                                                       "observed": got})
     # what reaches the accumulator
     acc = fl.RecAcc(fl.build_acc(ch["acc"]))
-    out = outcome(lambda: fl.drive_chain(ch, n_values, pairs, "fill_compute_seq", acc=acc), fl.project2)
-    reached = [fl.project2(v) for v in acc.reached]
-    exp_reach = [flowlib.norm_spec_val(v) for v in rec["reach"]]
+    out = outcome(lambda: fl.drive_chain(ch, n_values, pairs, "fill_compute_seq", acc=acc), fl.project3)
+    reached = [fl.project3(v) for v in acc.reached]
+    exp_reach = [fl.norm_spec_val3(v) for v in rec["reach"]]
     ctx.case(["reach", ch, n_values, pairs], nontrivial=n_values > 0)
     if reached != exp_reach:
         mini.fail("chain:reach", size, tail, {"chain": ch, "N": n_values, "flow": pairs, "expected": exp_reach,
@@ -158,7 +173,7 @@ def replay_extra(ctx, mini, rec, k):
     tail = "%s:%s:N=%d:%s" % (name, fl.chain_key(ch), n_values, pairs)
     proxy = fl.RecAcc(make())
     outcome(lambda: fl.drive_chain(ch, n_values, pairs, "fill_compute_seq", acc=proxy), lambda v: v)
-    if [fl.project2(v) for v in proxy.reached] != [flowlib.norm_spec_val(v) for v in rec["reach"]]:
+    if [fl.project3(v) for v in proxy.reached] != [fl.norm_spec_val3(v) for v in rec["reach"]]:
         mini.fail("extra:reach", size, tail, {"chain": ch, "N": n_values, "pairs": pairs})
         return
 
@@ -218,6 +233,11 @@ def replay_adapter(ctx, mini, rec):
         mini.fail(base + ":accepted", size, sig, {"caps": caps})
         return
     log = flog if arg == "none" else el.log
+    check_probes(mini, base, size, sig, caps, res, adapter, obj, log, rec)
+
+
+def check_probes(mini, base, size, sig, caps, res, adapter, obj, log, rec):
+    """The adapter object obj (of kind adapter) probed twice: calls that reach the element, returns, fills."""
     try:
         ret, sink = fl.probe_adapter(adapter, obj)
         log1 = list(log)
@@ -240,6 +260,41 @@ def replay_adapter(ctx, mini, rec):
         if got != exp:
             mini.fail(base + ":second-use:" + what, size, sig, {"caps": caps, "bind": res, "expected": exp, "observed": got})
             return
+
+
+def replay_nested(ctx, mini, rec):
+    """An adapter object used as an element: what it exposes, and a second adapter around it."""
+    import lena.core
+    adapter, caps, arg, outer, res2 = rec["adapter"], rec["caps"], rec["arg"], rec["outer"], rec["res2"]
+    sig = fl.caps_sig(caps)
+    size = (len(sig.split("+")), sig)
+    el = fl.make_synthetic(caps)
+    ctx.case(["nested-adapter", outer, adapter, arg, caps])
+    try:
+        inner = construct(adapter, el, arg)
+    except Exception:   # noqa
+        return           # reported by replay_adapter
+    shown = fl.real_caps(inner)
+    if shown != rec["shown"]:
+        # one signature per adapter kind: the smallest element on which the adapter object shows more (or less) than
+        # its interface, and what it shows
+        diff = "+".join(k for k in fl.METHODS + ("call", "iter", "cbf", "truth") if shown.get(k) != rec["shown"].get(k))
+        mini.fail("adapter:%s:exposes" % adapter, size + (arg,), "%s:%s:around:%s" % (diff, arg, sig),
+                  {"caps": caps, "arg": arg, "expected": rec["shown"], "observed": shown})
+    base = "adapter:%s(%s:%s)" % (outer, adapter, arg)
+    try:
+        obj = construct(outer, inner, "default")
+    except lena.core.LenaTypeError:
+        if res2["ok"]:
+            mini.fail(base + ":rejected", size, sig, {"caps": caps, "expected": res2})
+        return
+    except Exception as exc:   # noqa
+        mini.fail(base + ":raised:" + exc_name(exc), size, sig, {"caps": caps, "exception": repr(exc)})
+        return
+    if not res2["ok"]:
+        mini.fail(base + ":accepted", size, sig, {"caps": caps})
+        return
+    check_probes(mini, base, size, sig, caps, {"inner": rec["res"], "outer": res2}, outer, obj, el.log, rec)
 
 
 def plus1(v):
@@ -453,16 +508,24 @@ def random_stage(rnd, alphabet):
                             [{"t": "map", "f": "inc"}, {"t": "slice", "a": 0, "b": 2, "s": 1}],
                             [{"t": "reverse"}, {"t": "slice", "a": 0, "b": 1, "s": 1}]])
         return {"t": "runifseq", "p": rnd.choice(["even", "lt2", "all"]), "inner": inner}
+    if k == "tvar":
+        pool = [{"n": "mm", "ty": "length", "g": "dbl"}, {"n": "sq", "ty": "area", "g": "inc"},
+                {"n": "half", "ty": "fraction", "g": "dbl"}, {"n": "ident", "ty": "", "g": "id"},
+                {"n": "cm", "ty": "length", "g": "inc"}, {"n": "shift", "ty": "", "g": "add10"},
+                {"n": "a2", "ty": "area", "g": "id"}]
+        return {"t": "tvar", "vars": [rnd.choice(pool) for _ in range(rnd.choice([1, 1, 2, 2, 3]))]}
+    if k == "wmap":
+        return {"t": "wmap", "f": rnd.choice(["inc", "dbl", "tag"]), "w": rnd.choice(["call", "m"])}
     if k == "crunif":
         return {"t": "crunif", "k": rnd.choice(["odd", "variable", "t", "k"]), "f": rnd.choice(["inc", "dbl", "drop", "tag"])}
     return flowlib.random_stage(rnd, [k])
 
 
 def random_chain(rnd):
-    pre = [random_stage(rnd, ["map", "map", "filter", "slice", "slice", "runif", "cfilter", "cfilter", "crunif", "varattr", "runifdup", "runifseq", "runifseq", "sfilter", "sfilter"])
+    pre = [random_stage(rnd, ["map", "map", "filter", "slice", "slice", "runif", "cfilter", "cfilter", "crunif", "varattr", "runifdup", "runifseq", "runifseq", "sfilter", "sfilter", "tvar", "tvar", "tvar", "wmap"])
            for _ in range(rnd.randint(0, 4))]
     pre = [st for st in pre if st.get("f") != "id"]
-    post = [flowlib.random_stage(rnd, ["map", "filter", "slice", "count", "sum"]) for _ in range(rnd.randint(0, 2))]
+    post = [random_stage(rnd, ["map", "filter", "slice", "count", "sum", "tvar", "wmap"]) for _ in range(rnd.randint(0, 2))]
     post = [st for st in post if st.get("f") != "id"]
     if rnd.random() < 0.2:
         # a callable returning None (or a bare 0) for some values; after it only elements that take any value
@@ -473,7 +536,8 @@ def random_chain(rnd):
                     "acc": rnd.choice(["sum", "last", "store1", "cnt"]), "post": post}
         return {"pre": pre[:2] + [{"t": "nmap", "f": f}] + tail, "acc": rnd.choice(["last", "store1", "cnt"]),
                 "post": [flowlib.random_stage(rnd, ["slice"]) for _ in range(rnd.randint(0, 1))]}
-    return {"pre": pre, "acc": rnd.choice(["sum", "sum", "last", "store1", "cnt", "sumrun"]), "post": post}
+    return {"pre": pre, "acc": rnd.choice(["sum", "sum", "last", "store1", "store1", "cnt", "sumrun", "fc_sum", "fc_count",
+                                           "fc_amb", "fc_named"]), "post": post}
 
 
 def record_random(ctx, mini, rnd, count):
@@ -486,8 +550,13 @@ def record_random(ctx, mini, rnd, count):
         place = rnd.choice(["alone", "first", "middle", "middle", "last", "afterstop", "afterstop"]) if drv == "split" else "alone"
         copy_buf = place != "alone" or rnd.random() < 0.7
         form = rnd.choice(["tuple", "fcseq"])
+        snap = []
         out = outcome(lambda: fl.drive_chain(ch, n_values, pairs, drv, bs, copy_buf=copy_buf, form=form, place=place,
-                                             variant=rnd.randint(0, 2)), fl.project2)
+                                             variant=rnd.randint(0, 2), snap=snap), fl.project3)
+        if not isinstance(out, str) and snap != out:
+            # the trace specification is given the results as they were when they were yielded as well
+            trace.append({"e": "out", "ch": ch, "N": n_values, "fk": pairs, "drv": drv + "-as-yielded", "bs": bs,
+                          "place": place, "out": snap})
         if isinstance(out, str):
             trace.append({"e": out, "ch": ch, "N": n_values, "fk": pairs, "drv": drv, "bs": bs, "place": place})
         else:
@@ -495,10 +564,10 @@ def record_random(ctx, mini, rnd, count):
                           "out": out})
         if rnd.random() < 0.3:
             acc = fl.RecAcc(fl.build_acc(ch["acc"]))
-            r = outcome(lambda: fl.drive_chain(ch, n_values, pairs, "fill_compute_seq", acc=acc), fl.project2)
+            r = outcome(lambda: fl.drive_chain(ch, n_values, pairs, "fill_compute_seq", acc=acc), fl.project3)
             if not isinstance(r, str):
                 trace.append({"e": "reach", "ch": ch, "N": n_values, "fk": pairs,
-                              "reach": [fl.project2(v) for v in acc.reached]})
+                              "reach": [fl.project3(v) for v in acc.reached]})
     return trace
 
 
@@ -527,7 +596,10 @@ def _replay_chains(items):
 def _replay_adapters(recs):
     col, mini = fl.Collector(), Minimal(None)
     for rec in recs:
-        replay_adapter(col, mini, rec)
+        if "outer" in rec:
+            replay_nested(col, mini, rec)
+        else:
+            replay_adapter(col, mini, rec)
     return col.counts(), mini.fails
 
 
@@ -541,41 +613,75 @@ def run(ctx):
                "plus real objects whose capability record is extracted by introspection")
     actions = ("RunFeed", "RunEof", "FillValue", "FillCompute", "PersistValue", "PersistCompute", "ComputeAgain",
                "SplitRead", "SplitFill", "SplitEnd")
-    ctx.mc("FillSeq", "FillSeq_%s.cfg" % tag)
-    # per-action census (vacuity guard) on a small configuration
-    fl.census(ctx, "FillSeq", "FillSeq_cover.cfg", actions)
-    # a Split that hands one shared copy of the block to its branches must be rejected (vacuity guard for `place`)
-    shared = ctx.mc("FillSeq", "FillSeq_sharedcopy.cfg", expect_violation="report")
-    if shared.violated is None:
-        raise core.MachineryError("FillSeq.tla accepts a Split that shares one buffer copy between its branches")
-    ctx.extra["shared_copy_variant_rejected_by"] = shared.violated
-    # ... and one whose LenaStopFill flag is kept for the later branches of the block
-    flag = ctx.mc("FillSeq", "FillSeq_sharedflag.cfg", expect_violation="report")
-    if flag.violated is None:
-        raise core.MachineryError("FillSeq.tla accepts a Split whose stop flag is shared by the branches of a block")
-    ctx.extra["shared_stop_flag_variant_rejected_by"] = flag.violated
-    if ctx.thorough:
-        ctx.mc("FillSeq", "FillSeq_wide.cfg")
-        ctx.mc("FillSeq", "FillSeq_deep.cfg")       # three pre elements
+    # All TLC jobs of the design level and the exports run side by side (each is a subprocess); the replay on the
+    # implementation starts when they are done (no thread is alive when the replay workers are forked).
+    wide = "wide" if ctx.thorough else ""
+    w_big = 8 if ctx.thorough else 3
+    guards = (
+        # a Split that hands one shared copy of the block to its branches must be rejected (vacuity guard for `place`)
+        ("FillSeq", "FillSeq_sharedcopy.cfg", "shared_copy_variant_rejected_by",
+         "FillSeq.tla accepts a Split that shares one buffer copy between its branches"),
+        # ... and one whose LenaStopFill flag is kept for the later branches of the block
+        ("FillSeq", "FillSeq_sharedflag.cfg", "shared_stop_flag_variant_rejected_by",
+         "FillSeq.tla accepts a Split whose stop flag is shared by the branches of a block"),
+        # an adapter that lets the other methods of the wrapped element through (Sequence would use the element's own
+        # run instead of fill ... compute)
+        ("FillSeq", "FillSeq_forward.cfg", "forwarding_adapter_variant_rejected_by",
+         "FillSeq.tla accepts adapters that show the methods of the wrapped element"),
+        # a Variable whose run side shares the nested parts of one description between the values of a flow
+        ("FillSeq", "FillSeq_perflow.cfg", "shared_description_variant_rejected_by",
+         "FillSeq.tla accepts a Variable that shares one description between the values of a flow"),
+        ("Adapters", "Adapters_forward.cfg", "forwarding_adapter_rejected_by",
+         "Adapters.tla accepts an adapter object that forwards the methods of the wrapped element"))
+    from ..ctxlib import Jobs
+    with Jobs(ctx, max_workers=6 if ctx.thorough else 5) as jobs:
+        futs = [jobs.submit(ctx.mc, "FillSeq", "FillSeq_%s.cfg" % tag, workers=w_big),
+                # variables below the top level of the context (typed, composed) and elements with conflicting
+                # interfaces behind explicit adapters; all drivers
+                jobs.submit(ctx.mc, "FillSeq", "FillSeq_vars%s.cfg" % wide, workers=w_big),
+                # per-action census (vacuity guard) on a small configuration
+                jobs.submit(fl.census, ctx, "FillSeq", "FillSeq_cover.cfg", actions)]
+        f_recs = [jobs.submit(ctx.export, "FillSeq", "FillSeq_%s_export.cfg" % tag, min_records=1000),
+                  jobs.submit(ctx.export, "FillSeq", "FillSeq_vars%s_export.cfg" % wide, min_records=1000)]
+        # adapters: one TLC run checks the table and prints it
+        f_arecs = jobs.submit(mc_and_export, ctx, "Adapters", "Adapters_%s.cfg" % tag,
+                              ("Construct", "Invoke", "Wrap", "InvokeOuter"), 5000)
+        f_guards = [jobs.submit(ctx.mc, m, c, workers=1, expect_violation="report") for m, c, _, _ in guards]
+        if ctx.thorough:
+            futs.append(jobs.submit(ctx.mc, "FillSeq", "FillSeq_wide.cfg", workers=w_big))
+            futs.append(jobs.submit(ctx.mc, "FillSeq", "FillSeq_deep.cfg", workers=w_big))       # three pre elements
+            f_recs.append(jobs.submit(ctx.export, "FillSeq", "FillSeq_wide_export.cfg", min_records=1000))
+    for f in futs:
+        f.result()
+    for (m, c, label, msg), f in zip(guards, f_guards):
+        res = f.result()
+        if res.violated is None:
+            raise core.MachineryError(msg)
+        ctx.extra[label] = res.violated
     mini = Minimal(ctx)
-    recs = ctx.export("FillSeq", "FillSeq_%s_export.cfg" % tag, min_records=1000)
-    if ctx.thorough:
-        recs += ctx.export("FillSeq", "FillSeq_wide_export.cfg", min_records=1000)
+    recs = []
+    for f in f_recs:
+        recs += f.result()
+    arecs = f_arecs.result()
     nproc = fl.nprocs(ctx.thorough)
     for counts, fails in fl.parallel_map(_replay_chains, list(enumerate(recs)), nproc):
         fl.merge_counts(ctx, counts)
         mini.merge(fails)
     ctx.sample({"spec_behaviour_chain": recs[len(recs) // 2]})
 
-    # ---- adapters: one TLC run checks the table and prints it
-    arecs = mc_and_export(ctx, "Adapters", "Adapters_%s.cfg" % tag, ("Construct", "Invoke"), 5000)
+    # ---- adapters
     table = {}
     for rec in arecs:
-        table[(rec["adapter"], rec["arg"], fl.caps_sig(rec["caps"]))] = rec["res"]
+        if "outer" not in rec:
+            table[(rec["adapter"], rec["arg"], fl.caps_sig(rec["caps"]))] = rec["res"]
     for counts, fails in fl.parallel_map(_replay_adapters, arecs, nproc):
         fl.merge_counts(ctx, counts)
         mini.merge(fails)
     ctx.sample({"spec_behaviour_adapter": arecs[len(arecs) // 3]})
+    nested = [r for r in arecs if "outer" in r and r["res2"]["ok"]]
+    if len(nested) < 500:
+        raise core.MachineryError("Adapters.tla exported %d accepted adapter-in-adapter behaviours" % len(nested))
+    ctx.sample({"spec_behaviour_nested_adapter": nested[len(nested) // 2]})
 
     # ---- code -> spec
     real = record_real_kinds(ctx, mini, table)
@@ -595,7 +701,9 @@ def run(ctx):
              "Sequence.run, FillComputeSeq, FillSeq and Split (tuple and FillComputeSeq branch) with every bufsize in "
              "1..N+1, 1000, None, plus the values reaching the accumulator; framework accumulators outside the model "
              "with the accumulator itself as oracle; every (adapter, capability record, argument) of the Adapters "
-             "table on a synthetic class (accept/reject, calls made, values returned and filled); non-trivial = "
+             "table on a synthetic class (accept/reject, calls made, values returned and filled) and every adapter-in-"
+             "adapter row (capabilities the adapter object exposes, accept/reject, calls reaching the element); results "
+             "compared including the content of context.variable, as yielded and after the driver has finished; non-trivial = "
              "non-empty flow; C2S: real objects of 30 kinds through every adapter (Trace_Adapters) and seeded random "
              "chains (pre <= 4, post <= 2, N <= 12) validated by Trace_FillSeq",
         exhaustive=True)
